@@ -635,6 +635,7 @@ class Engine:
         self.errors = []
         self.child_hook = None
         self.purify_div = False
+        self.nice_bound = 1000000
         self.rounding = False
         self.enum_models = 0
         self._quot = {}
@@ -1182,7 +1183,7 @@ class Engine:
             if r == z3.unsat:
                 self.stats["discharged"] += 1
             elif r == z3.sat:
-                m = self.solver.model()
+                m = self._nicer(self.solver.model())
                 self.violations.append(dict(name=name, model=self._model_dict(m), path=self.path_string(),
                                             info=info(m) if callable(info) else info, _m=m))
             else:
@@ -1221,9 +1222,25 @@ class Engine:
     def path_prefix(self):
         return [(d.kind, list(d.options), d.idx) for d in self.stack]
 
+    def _nicer(self, m):
+        """prefer a model whose real inputs have moderate magnitude (replays convert them to float64, and
+        values next to sys.float_info.max would collapse onto it); falls back to m"""
+        reals = [v for v in self.track_vars if z3.is_real(v)]
+        if not reals or self.nice_bound is None:
+            return m
+        B = self.nice_bound
+        self._flush()
+        self.solver.push()
+        self.solver.add(z3.And([z3.And(v <= B, v >= -B) for v in reals]))
+        r = self._check()
+        if r == z3.sat:
+            m = self.solver.model()
+        self.solver.pop()
+        return m
+
     def witness(self):
         """a model of the current path condition (for witness replay)."""
-        return self._ensure_model()
+        return self._nicer(self._ensure_model())
 
     # -- exploration
     def explore(self, fn, prefix=None, on_leaf=None):
